@@ -389,7 +389,14 @@ size_t varintAdaptiveEncodeWith(uint8_t *dst, const uint64_t *values,
 
         for (size_t i = 0; i < count; i++) {
             if (values[i] < VARINT_BITMAP_MAX_VALUE) {
-                varintBitmapAdd(vb, (uint16_t)values[i]);
+                const uint16_t member = (uint16_t)values[i];
+                /* Add returns false for a duplicate and for an allocation
+                 * failure; only the latter leaves the member absent */
+                if (!varintBitmapAdd(vb, member) &&
+                    !varintBitmapContains(vb, member)) {
+                    varintBitmapFree(vb);
+                    return 0; /* Out of memory */
+                }
             }
         }
 
@@ -408,6 +415,13 @@ size_t varintAdaptiveEncodeWith(uint8_t *dst, const uint64_t *values,
         encodedSize = offset - 1; /* Subtract initial header byte */
         break;
     }
+    }
+
+    /* Every encoding needs at least one byte per non-empty input; a
+     * sub-encoder that wrote nothing has failed (e.g. out of memory) and a
+     * lone header byte would decode to nothing */
+    if (encodedSize == 0 && count > 0) {
+        return 0;
     }
 
     /* Fill metadata if requested */
